@@ -301,6 +301,12 @@ func runC03(c *Ctx) {
 	c03Shape(c, entry, d)
 	c03Exhaustive(c, d)
 	c03Recursion(c, entry, d, rr)
+	c03Locks(c, rr)
+	if reader := c.memberReader(d); reader != nil {
+		c.structFieldRules("C03.member-read-errors", reader, false)
+	} else {
+		c.R.Undecided("C03.member-read-errors", "member-reader", "-", "the selector handler's member reader was not found")
+	}
 }
 
 func c03Recover(c *Ctx, entry *ssa.Function, rr *ReachResult) {
@@ -644,4 +650,69 @@ func (c *Ctx) boundedLoop(f *ssa.Function, l *Loop) (bool, string) {
 		return false, fmt.Sprintf("counting loop with step+1=%v, invariant length bound=%v", stepOK, boundOK)
 	}
 	return false, "no recognised loop form"
+}
+
+// c03Locks: evaluation terminates. A lock taken in evaluator-reachable code must be released by a deferred unlock
+// registered before anything that may panic: Resolve recovers the panic, but a lock left held blocks the next
+// evaluation that reaches the same lock forever.
+func c03Locks(c *Ctx, rr *ReachResult) {
+	const rule = "C03.lock-released-on-panic"
+	n := 0
+	for _, f := range rr.Order {
+		per := 0
+		for _, b := range f.Blocks {
+			for i, in := range b.Instrs {
+				call, ok := in.(*ssa.Call)
+				if !ok {
+					continue
+				}
+				cal := calleeOf(call)
+				if cal == nil {
+					continue
+				}
+				name := cal.String()
+				if name != "(*sync.Mutex).Lock" && name != "(*sync.RWMutex).Lock" && name != "(*sync.RWMutex).RLock" {
+					continue
+				}
+				n++
+				per++
+				// the rest of the block: a deferred unlock before any other call
+				good := false
+				why := "no deferred unlock follows the lock"
+				for _, nx := range b.Instrs[i+1:] {
+					if d, isD := nx.(*ssa.Defer); isD {
+						if dc := calleeOf(d); dc != nil && (dc.String() == "(*sync.Mutex).Unlock" || dc.String() == "(*sync.RWMutex).Unlock" || dc.String() == "(*sync.RWMutex).RUnlock") {
+							good = true
+							break
+						}
+					}
+					if _, isCall := nx.(ssa.CallInstruction); isCall {
+						why = "a call precedes the (deferred) unlock"
+						break
+					}
+					if _, isMU := nx.(*ssa.MapUpdate); isMU {
+						continue
+					}
+				}
+				if !good {
+					// explicit unlock is fine only when nothing between lock and unlock can panic
+					sites := c.panicSites(map[*ssa.Function]bool{f: true}, []*ssa.Function{f})
+					risky := false
+					for _, s := range sites {
+						if pathExists(f, in, func(x ssa.Instruction) bool { return x == s.In }, func(x ssa.Instruction) bool {
+							uc, isC := x.(*ssa.Call)
+							return isC && calleeOf(uc) != nil && strings.HasSuffix(calleeOf(uc).String(), "Unlock")
+						}, nil) {
+							risky = true
+							why = "a " + s.Kind + " at " + c.P.InstrPos(s.In) + " can panic while the lock is held"
+						}
+					}
+					good = !risky
+				}
+				c.R.Check(rule, fmt.Sprintf("%s: lock#%d", c.P.FuncKey(f), per), c.P.InstrPos(in), good, "a lock taken during evaluation must be released when the evaluation panics (Resolve recovers, the lock stays held and the next evaluation blocks forever): "+why)
+			}
+		}
+	}
+	c.R.Add(rule, "locks-examined", "-", OK, "")
+	c.R.Analysed["locks_in_evaluator"] = n
 }
